@@ -260,6 +260,7 @@ func factsLimits(c *factsCtx, outdir string) error {
 		countVar, loopOver                  string
 		wholePlaced, createInLoop, checkInLoop string
 	}{wholePlaced: "unknown", createInLoop: "unknown", checkInLoop: "unknown"}
+	rename := lfRename{}
 
 	for _, rel := range []string{"internal/state", "internal/backend"} {
 		for _, f := range c.parseDir(rel) {
@@ -323,6 +324,9 @@ func factsLimits(c *factsCtx, outdir string) error {
 								s.quantity = "one-more"
 							} else if _, l, ok := lfCountPlusLenMinusOne(call.Args[0]); ok {
 								s.quantity, s.quantityOf = "len-of-list-more", l
+							} else if _, q, ok := lfCountPlusVarMinusOne(call.Args[0]); ok {
+								// room for q more, q a local variable (State.Rename: see RenameShape for what q is)
+								s.quantity, s.quantityOf = "var-more", q
 							}
 						}
 						if len(call.Args) == 2 {
@@ -411,6 +415,11 @@ func factsLimits(c *factsCtx, outdir string) error {
 					}
 					inserts = append(inserts, is)
 				})
+
+				// shape of State.Rename
+				if rel == "internal/state" && fn == "State.Rename" {
+					lfRenameShape(fd, &rename)
+				}
 
 				// shape of State.Create
 				if rel == "internal/state" && fn == "State.Create" {
@@ -576,6 +585,10 @@ func factsLimits(c *factsCtx, outdir string) error {
 		create.found, create.checkCalls, leanStr(create.countVar), leanStr(create.loopOver), create.bareChecks, create.wholeListChecks,
 		leanOptBool(create.wholePlaced), create.createsOutsideLoop, create.createsBeforeWholeCheck,
 		leanOptBool(create.createInLoop), leanOptBool(create.checkInLoop))
+	b.WriteString("structure RenameShape where\n  found : Bool\n  checkCalls : Nat\n  /-- the variable holding `tx.GetMailboxCount()`, the slice of missing superiors the creating loop ranges over, the variable counting the mailboxes about to be created -/\n  countVar : String\n  loopOver : String\n  quantityVar : String\n  /-- `quantityVar := len(loopOver)` -/\n  quantityIsLenOfList : Bool\n  /-- `if oldName == imap.Inbox { quantityVar++ }` (renameInbox creates one mailbox more), and nothing else assigns to quantityVar -/\n  inboxCountsOneMore : Bool\n  otherQuantityWrites : Nat\n  /-- the one check is `CheckMailBoxCount(countVar + quantityVar - 1)` -/\n  checkArgIsCountPlusQuantityMinusOne : Bool\n  /-- it stands inside `if quantityVar > 0 { … }` -/\n  guardedByQuantityPositive : Bool\n  /-- after the last `append` to the list and before the creating loop -/\n  checkAfterListBeforeLoop : Bool\n  /-- calls that create or rename something or tell the connector (CreateMailbox, CreateMailboxIfNotExists, renameInbox, actionUpdateMailbox, RenameMailboxWithRemoteID) textually before the check -/\n  effectsBeforeCheck : Nat\n  /-- such calls in total (non-zero: the function was understood) -/\n  effects : Nat\nderiving DecidableEq, Repr\n\n")
+	fmt.Fprintf(&b, "/-- shape of `State.Rename` (internal/state/state.go) -/\ndef stateRenameShape : RenameShape :=\n  { found := %v, checkCalls := %d, countVar := %s, loopOver := %s, quantityVar := %s, quantityIsLenOfList := %v,\n    inboxCountsOneMore := %v, otherQuantityWrites := %d, checkArgIsCountPlusQuantityMinusOne := %v, guardedByQuantityPositive := %v,\n    checkAfterListBeforeLoop := %v, effectsBeforeCheck := %d, effects := %d }\n\n",
+		rename.found, rename.checkCalls, leanStr(rename.countVar), leanStr(rename.loopOver), leanStr(rename.quantityVar), rename.qIsLen,
+		rename.inboxInc, rename.otherWrites, rename.argOK, rename.guarded, rename.placed, rename.effectsBefore, rename.effects)
 	b.WriteString("structure LimitArgSite where\n  file : String\n  line : Nat\n  func : String\n  callee : String\n  arg : String\n  /-- \"configured\" (a field `….imapLimits`), \"param\" (passed through), \"default\" (limits.DefaultLimits()), \"unknown\" -/\n  kind : String\nderiving DecidableEq, Repr\n\n")
 	b.WriteString("/-- every argument passed for a `limits.IMAP` parameter of a function of internal/state, internal/backend,\n    internal/session and the root package -/\ndef limitArgSites : List LimitArgSite := [\n")
 	for i, s := range argSites {
@@ -634,4 +647,149 @@ func lfCountPlusLenMinusOne(e ast.Expr) (string, string, bool) {
 		return "", "", false
 	}
 	return c.Name, l.Name, true
+}
+
+// lfCountPlusVarMinusOne recognises `c + q - 1` (c, q identifiers) and returns c and q.
+func lfCountPlusVarMinusOne(e ast.Expr) (string, string, bool) {
+	sub, ok := e.(*ast.BinaryExpr)
+	if !ok || sub.Op != token.SUB {
+		return "", "", false
+	}
+	if one, ok := sub.Y.(*ast.BasicLit); !ok || one.Kind != token.INT || one.Value != "1" {
+		return "", "", false
+	}
+	add, ok := sub.X.(*ast.BinaryExpr)
+	if !ok || add.Op != token.ADD {
+		return "", "", false
+	}
+	c, ok1 := add.X.(*ast.Ident)
+	q, ok2 := add.Y.(*ast.Ident)
+	if !ok1 || !ok2 {
+		return "", "", false
+	}
+	return c.Name, q.Name, true
+}
+
+type lfRename struct {
+	found                                  bool
+	checkCalls, otherWrites                int
+	effectsBefore, effects                 int
+	countVar, loopOver, quantityVar        string
+	qIsLen, inboxInc, argOK, guarded, placed bool
+}
+
+var lfRenameEffects = map[string]bool{"CreateMailbox": true, "CreateMailboxIfNotExists": true, "renameInbox": true,
+	"actionUpdateMailbox": true, "RenameMailboxWithRemoteID": true}
+
+// lfRenameShape reads the shape of State.Rename: the list of missing superiors, the loop creating them, the
+// quantity variable (len of the list, one more for INBOX) and the one CheckMailBoxCount call.
+func lfRenameShape(fd *ast.FuncDecl, r *lfRename) {
+	r.found = true
+	// the creating loop: a range loop whose body calls CreateMailboxIfNotExists
+	var loop *ast.RangeStmt
+	ast.Inspect(fd, func(n ast.Node) bool {
+		if rs, ok := n.(*ast.RangeStmt); ok && loop == nil {
+			creating := false
+			ast.Inspect(rs.Body, func(m ast.Node) bool {
+				if call, ok := m.(*ast.CallExpr); ok && calleeName(call) == "CreateMailboxIfNotExists" {
+					creating = true
+				}
+				return true
+			})
+			if creating {
+				loop = rs
+				if id, ok := rs.X.(*ast.Ident); ok {
+					r.loopOver = id.Name
+				}
+			}
+		}
+		return true
+	})
+	// the check and its argument
+	var check *ast.CallExpr
+	ast.Inspect(fd, func(n ast.Node) bool {
+		if call, ok := n.(*ast.CallExpr); ok && calleeName(call) == "CheckMailBoxCount" {
+			r.checkCalls++
+			check = call
+		}
+		return true
+	})
+	if check != nil && len(check.Args) == 1 {
+		if c, q, ok := lfCountPlusVarMinusOne(check.Args[0]); ok {
+			r.countVar, r.quantityVar, r.argOK = c, q, true
+		}
+	}
+	var lastAppend token.Pos
+	countFromDB := false
+	ast.Inspect(fd, func(n ast.Node) bool {
+		switch x := n.(type) {
+		case *ast.AssignStmt:
+			if len(x.Lhs) == 0 || len(x.Rhs) != 1 {
+				return true
+			}
+			lhs, ok := x.Lhs[0].(*ast.Ident)
+			if !ok {
+				return true
+			}
+			call, isCall := x.Rhs[0].(*ast.CallExpr)
+			if isCall && calleeName(call) == "GetMailboxCount" && lhs.Name == r.countVar {
+				countFromDB = true
+			}
+			if isCall {
+				if id, ok := call.Fun.(*ast.Ident); ok && id.Name == "append" && r.loopOver != "" && lhs.Name == r.loopOver && x.End() > lastAppend {
+					lastAppend = x.End()
+				}
+			}
+			if r.quantityVar != "" && lhs.Name == r.quantityVar {
+				isLen := false
+				if isCall {
+					if id, ok := call.Fun.(*ast.Ident); ok && id.Name == "len" && len(call.Args) == 1 {
+						if a, ok := call.Args[0].(*ast.Ident); ok && a.Name == r.loopOver && r.loopOver != "" && x.Tok == token.DEFINE {
+							isLen = true
+						}
+					}
+				}
+				if isLen && !r.qIsLen {
+					r.qIsLen = true
+				} else {
+					r.otherWrites++
+				}
+			}
+		case *ast.IfStmt:
+			// if oldName == imap.Inbox { q++ }
+			if x.Init == nil && x.Else == nil && len(x.Body.List) == 1 && types.ExprString(x.Cond) == "oldName == imap.Inbox" {
+				if inc, ok := x.Body.List[0].(*ast.IncDecStmt); ok && inc.Tok == token.INC {
+					if id, ok := inc.X.(*ast.Ident); ok && id.Name == r.quantityVar && r.quantityVar != "" {
+						r.inboxInc = true
+						return false
+					}
+				}
+			}
+			// if q > 0 { ... check ... }
+			if check != nil && x.Init == nil && x.Else == nil && r.quantityVar != "" && types.ExprString(x.Cond) == r.quantityVar+" > 0" &&
+				check.Pos() >= x.Body.Pos() && check.End() <= x.Body.End() {
+				r.guarded = true
+			}
+		case *ast.IncDecStmt:
+			if id, ok := x.X.(*ast.Ident); ok && id.Name == r.quantityVar && r.quantityVar != "" {
+				r.otherWrites++
+			}
+		}
+		return true
+	})
+	if !countFromDB {
+		r.countVar = ""
+	}
+	if check != nil && loop != nil && lastAppend != token.NoPos && check.Pos() > lastAppend && check.End() < loop.Pos() {
+		r.placed = true
+	}
+	ast.Inspect(fd, func(n ast.Node) bool {
+		if call, ok := n.(*ast.CallExpr); ok && lfRenameEffects[calleeName(call)] {
+			r.effects++
+			if check == nil || call.Pos() < check.Pos() {
+				r.effectsBefore++
+			}
+		}
+		return true
+	})
 }
